@@ -5,6 +5,7 @@ import (
 	"crypto/ecdsa"
 	"crypto/rand"
 	"crypto/rsa"
+	"crypto/sha1"
 	"crypto/x509"
 	"crypto/x509/pkix"
 	"embed"
@@ -112,6 +113,12 @@ func Mint(parent *Ent, s CertSpec) *Ent {
 		NotBefore:             s.NotBefore,
 		NotAfter:              s.NotAfter,
 		BasicConstraintsValid: true,
+	}
+	// a subject key identifier, as practically every issued certificate carries one (crypto/x509 adds it for CAs only):
+	// it identifies the KEY - certificates of one key share it whatever their subjects are
+	if pk, err := x509.MarshalPKIXPublicKey(key.Public()); err == nil {
+		h := sha1.Sum(pk)
+		tmpl.SubjectKeyId = h[:]
 	}
 	if s.Subject != nil {
 		tmpl.Subject = *s.Subject
